@@ -343,12 +343,22 @@ func GetRulePatterns(ctx *Context, rule map[string]interface{}) []map[string]int
 	if !have {
 		return nil
 	}
-	when := eventPattern.(map[string]interface{})
+	// A 'when' (or its 'pattern') that is not a map is not a usable
+	// pattern.  Report "no patterns" instead of panicking: this code
+	// runs while the state's lock is held, so a panic here left the
+	// location locked forever.
+	when, ok := eventPattern.(map[string]interface{})
+	if !ok {
+		return nil
+	}
 	events := make([]map[string]interface{}, 0, 1)
 	p, fromQuery := when["pattern"]
-	// ToDo: Better type processing.
 	if fromQuery {
-		events = append(events, p.(map[string]interface{}))
+		pm, ok := p.(map[string]interface{})
+		if !ok {
+			return nil
+		}
+		events = append(events, pm)
 	} else {
 		events = append(events, when)
 	}
